@@ -35,6 +35,7 @@ def judge(script, obs, oracles):
     """reference oracle on native observations: list of (kind, op index, text)"""
     bad = []
     queues, delivered, lens = {}, {}, {}
+    peeks = {}
     by_i = {o['i']: o for o in obs}
     for i, op in enumerate(script['ops']):
         o = by_i.get(i)
@@ -82,6 +83,23 @@ def judge(script, obs, oracles):
                     bad.append(('budget', i, 'total %d > budget %d with %d entries' % (tot, op['budget'], k)))
             if op.get('checkpoint', True):
                 delivered[topic] = d + min(k, pending)
+                pk = peeks.pop(topic, None)
+                if pk is not None and pk[0] == kind and pk[1] == op.get('budget') and pk[2] != ents:
+                    bad.append(('peek-differs', i, 'peek returned %s, the consuming read with the same arguments %s' % (pk[2], ents)))
+            else:
+                peeks[topic] = (kind, op.get('budget'), ents)
+        elif kind == 'batch_read' and op.get('start_offset') is not None:
+            if 'entries' in o and o['entries']:
+                ents = o['entries']
+                uids = [en.get('uid') for en in ents]
+                okrun = all(u is not None for u in uids) and all(en.get('topic', topic) == topic for en in ents)
+                if okrun:
+                    pos = [q.index(u) if u in q else None for u in uids]
+                    okrun = None not in pos and pos == list(range(pos[0], pos[0] + len(pos))) and \
+                        all(en.get('start') == 0 and en.get('len') == lens[en['uid']] for en in ents[1:]) and \
+                        ents[0]['start'] + ents[0]['len'] == lens[ents[0]['uid']]
+                if not okrun and not all(en.get('len') == 0 for en in ents):
+                    bad.append(('offset-read', i, 'offset read returned %s' % ents))
         elif kind == 'count':
             exp = len(q) - delivered[topic]
             if o.get('count') != exp:
@@ -168,6 +186,7 @@ def run(prop, tier, seed, jobs, oracles, budget_s, diff_scripts, bounds, extra_a
             r = rs[0]
             wit = {('size%d' % i): v for i, v in enumerate(dj['concrete']['sizes'])}
             wit.update({('budget%d' % i): v for i, v in enumerate(dj['concrete']['budgets'])})
+            wit.update({('offset%d' % i): v for i, v in enumerate(dj['concrete'].get('offsets', []))})
             script = concretise(r['ops'], wit, dict(backend=dj['backend'], consistency=dj['consistency']))
             obs, e = replay.run_script(script)
             rep.replays_run += 1
